@@ -336,6 +336,122 @@ def keywords_to_positional(trees: List[ast.AST]) -> None:
         _KwToPos(defs).visit(t)
 
 
+_STRICT = (ast.Call, ast.BinOp, ast.UnaryOp, ast.Subscript, ast.Attribute, ast.Tuple, ast.List, ast.Starred, ast.Compare,
+           ast.keyword, ast.Slice, ast.Dict, ast.Set, ast.JoinedStr, ast.FormattedValue)
+
+
+def _strict_loads(expr: ast.AST, name: str):
+    """(loads of `name` in strict positions, calls evaluated before each such load that do not enclose it)"""
+    hits = []
+
+    def rec(n, enclosing_calls):
+        if isinstance(n, ast.Name):
+            if n.id == name and isinstance(n.ctx, ast.Load):
+                hits.append((n, list(enclosing_calls)))
+            return
+        if not isinstance(n, _STRICT):
+            return
+        ec = enclosing_calls + [n] if isinstance(n, ast.Call) else enclosing_calls
+        for c in ast.iter_child_nodes(n):
+            rec(c, ec)
+    rec(expr, [])
+    return hits
+
+
+class _ForwardTemps(ast.NodeTransformer):
+    """`t = E; S` -> S[t := E] when `t` is a plain local with exactly one store and exactly one load in the whole
+    function, the load is in the statement that directly follows, in a position that is evaluated exactly once, and no
+    call other than the ones enclosing that position is evaluated in S before it (so the order of calls is kept)."""
+    def __init__(self):
+        self.fn_stack = []
+
+    def visit_FunctionDef(self, node):
+        self.fn_stack.append(node)
+        self.generic_visit(node)
+        self.fn_stack.pop()
+        return node
+    visit_AsyncFunctionDef = visit_FunctionDef
+
+    def _value_exprs(self, s):
+        if isinstance(s, (ast.Assign, ast.AugAssign, ast.AnnAssign, ast.Expr, ast.Return)):
+            return [s.value] if getattr(s, "value", None) is not None else []
+        if isinstance(s, ast.Raise):
+            return [s.exc] if s.exc is not None else []
+        return []
+
+    def _fix(self, body):
+        if not self.fn_stack:
+            return body
+        fn = self.fn_stack[-1]
+        changed = True
+        while changed:
+            changed = False
+            for i in range(len(body) - 1):
+                a, nx = body[i], body[i + 1]
+                if not (isinstance(a, ast.Assign) and len(a.targets) == 1 and isinstance(a.targets[0], ast.Name)):
+                    continue
+                t = a.targets[0].id
+                occ = [x for x in ast.walk(fn) if isinstance(x, ast.Name) and x.id == t]
+                if len(occ) != 2 or any(isinstance(x, ast.arg) and x.arg == t for x in ast.walk(fn)):
+                    continue
+                if any(isinstance(x, (ast.Global, ast.Nonlocal)) and t in x.names for x in ast.walk(fn)):
+                    continue
+                if any(isinstance(x, (ast.Yield, ast.YieldFrom, ast.Await, ast.NamedExpr)) for x in ast.walk(a.value)):
+                    continue
+                done = False
+                for e in self._value_exprs(nx):
+                    hits = _strict_loads(e, t)
+                    if len(hits) != 1:
+                        continue
+                    node, enclosing = hits[0]
+                    if any(isinstance(x, ast.Call) for x in ast.walk(a.value)):
+                        others = [c for c in ast.walk(e) if isinstance(c, ast.Call) and c not in enclosing]
+                        # calls that are evaluated before the load: approximated by "any other call at all"
+                        if others:
+                            continue
+                    # attribute/subscript stores in S's targets are evaluated after the value: unaffected
+                    if e is node:
+                        nx.value = a.value if not isinstance(nx, ast.Raise) else nx.value
+                        if isinstance(nx, ast.Raise):
+                            nx.exc = a.value
+                    else:
+                        _replace_child(e, node, a.value)
+                    del body[i]
+                    changed = done = True
+                    break
+                if done:
+                    break
+        return body
+
+    def generic_visit(self, node):
+        super().generic_visit(node)
+        for fld in ("body", "orelse", "finalbody"):
+            b = getattr(node, fld, None)
+            if isinstance(b, list) and b and isinstance(b[0], ast.stmt):
+                setattr(node, fld, self._fix(b))
+        if isinstance(node, ast.Try):
+            for h in node.handlers:
+                h.body = self._fix(h.body)
+        return node
+
+
+def _replace_child(root: ast.AST, old: ast.AST, new: ast.AST):
+    for parent in ast.walk(root):
+        for fld, val in ast.iter_fields(parent):
+            if val is old:
+                setattr(parent, fld, new)
+                return
+            if isinstance(val, list):
+                for j, v in enumerate(val):
+                    if v is old:
+                        val[j] = new
+                        return
+
+
+def forward_single_use_temps(tree: ast.AST) -> ast.AST:
+    return _ForwardTemps().visit(tree)
+
+
 class AnalysisError(Exception):
     """Anchor vanished / unparsable file / floor not met: exit 2, never a pass."""
 
@@ -464,6 +580,7 @@ class Repo:
         self.modules: Dict[str, Module] = {}
         self.funcs: Dict[str, Func] = {}
         self.classes: Dict[str, Class] = {}
+        self.inlined: Dict[str, List[str]] = {}     # module -> helpers (absent from the reference tree) spliced into their callers
         self._load()
 
     # ---------------------------------------------------------------- load
@@ -485,7 +602,12 @@ class Repo:
                 try:
                     with open(path, encoding="utf-8") as fh:
                         src = fh.read()
-                    tree = orient_comparisons(inline_adjacent_temps(strip_inert(ast.parse(src, filename=path))))
+                    tree = strip_inert(ast.parse(src, filename=path))
+                    from .inline import inline_new_helpers, known_functions
+                    tree, inl, skipped = inline_new_helpers(tree, mod, known_functions())
+                    if inl:
+                        self.inlined[mod] = sorted(set(inl))
+                    tree = orient_comparisons(inline_adjacent_temps(forward_single_use_temps(tree)))
                 except (SyntaxError, OSError, UnicodeDecodeError) as exc:
                     raise AnalysisError("cannot parse %s: %s" % (rel, exc))
                 m = Module(mod, path, rel, src, tree)
